@@ -225,8 +225,8 @@ Hypothesis COV : covers G = true.
 Definition E_of {A} (kids : list (field * list A)) (f : field) : list (step * A) :=
   elems_steps f (kids_of f kids) 0.
 
-Lemma field_children_proj {A} a (kids : list (field * list A)) fl f d :
-  fdesc_of G a f = Some d -> map proj_sc (field_children G a kids fl f) = E_of kids f.
+Lemma field_children_proj {A} a (kids : list (field * list A)) fl s f d :
+  fdesc_of G a f = Some d -> map proj_sc (field_children G a kids fl s f) = E_of kids f.
 Proof. intros H. unfold field_children, E_of. rewrite H. apply proj_tag_elems. Qed.
 
 (* an if/else chain over a group of which at most one member is set walks all that is set *)
@@ -276,7 +276,7 @@ Lemma visit_children_proj a kids fl vi :
 Proof.
   intros OK ALT. destruct vi as [s f|alts]; cbn [visit_children visit_fields visit_ok] in *.
   - apply shape_ok_fdesc in OK. destruct OK as [d [Hd _]]. cbn in Hd.
-    rewrite (field_children_proj _ _ _ _ _ Hd). cbn. now rewrite app_nil_r.
+    rewrite (field_children_proj _ _ _ _ _ _ Hd). cbn. now rewrite app_nil_r.
   - apply andb_true_iff in OK. destruct OK as [OK GRP]. apply andb_true_iff in OK. destruct OK as [SH _].
     apply existsb_exists in GRP. destruct GRP as [g [Hg Eg]]. apply list_eqb_eq in Eg. subst g.
     rewrite forallb_forall in ALT. pose proof (alt_ok_kids _ _ (ALT _ Hg)) as EX.
@@ -336,20 +336,20 @@ Qed.
 Lemma vis_children_In {A} a (kids : list (field * list A)) fl x :
   In x (vis_children G a kids fl) ->
   exists d, fdesc_of G a (fst (fst (fst (fst x)))) = Some d /\
-            snd (fst x) = is_listw (f_kind d) /\ snd x = child_fl (f_kind d) fl /\
+            snd (fst x) = is_listw (f_kind d) /\ (exists s, snd x = child_fl s (f_kind d) fl) /\
             In (snd (fst (fst x))) (kids_of (f_id d) kids).
 Proof.
   unfold vis_children. rewrite in_flat_map. intros [vi [_ H]].
-  assert (FC : forall f, In x (field_children G a kids fl f) ->
+  assert (FC : forall s f, In x (field_children G a kids fl s f) ->
      exists d, fdesc_of G a (fst (fst (fst (fst x)))) = Some d /\
-            snd (fst x) = is_listw (f_kind d) /\ snd x = child_fl (f_kind d) fl /\
+            snd (fst x) = is_listw (f_kind d) /\ (exists s0, snd x = child_fl s0 (f_kind d) fl) /\
             In (snd (fst (fst x))) (kids_of (f_id d) kids)).
-  { intros f Hf. unfold field_children in Hf. destruct (fdesc_of G a f) as [d|] eqn:D; [|destruct Hf].
+  { intros s f Hf. unfold field_children in Hf. destruct (fdesc_of G a f) as [d|] eqn:D; [|destruct Hf].
     apply tag_elems_In in Hf. destruct Hf as [H1 [H2 [H3 H4]]]. exists d.
-    rewrite H1. split; [exact D|]. split; [exact H2|]. split; [exact H3|].
+    rewrite H1. split; [exact D|]. split; [exact H2|]. split; [now exists s|].
     apply fdesc_of_In in D. destruct D as [_ D]. now rewrite D. }
-  destruct vi as [s f|alts]; cbn [visit_children] in H; [now apply FC with f|].
-  destruct (pick_alt alts kids) as [y|]; [now apply FC with (snd y)|destruct H].
+  destruct vi as [s f|alts]; cbn [visit_children] in H; [now apply FC with s f|].
+  destruct (pick_alt alts kids) as [y|]; [now apply FC with (fst y) (snd y)|destruct H].
 Qed.
 
 Lemma vis_children_wrapper_flag a kids fl x :
